@@ -8,6 +8,12 @@ from .facts import Broken
 REL_FLIP = {"<": ">", ">": "<", "<=": ">=", ">=": "<=", "==": "==", "!=": "!="}
 REL_NEG = {"<": ">=", ">": "<=", "<=": ">", ">=": "<", "==": "!=", "!=": "=="}
 
+NOISE_MACROS = {"RETURN_ERROR_IF", "RETURN_ERROR", "FORWARD_IF_ERROR", "RAWLOG", "DEBUGLOG", "MIN", "MAX",
+                "_FORCE_HAS_FORMAT_STRING", "CHECK_F", "CHECK_V_F", "assert", "ERROR", "NULL", "BOUNDCHECK",
+                "CLAMPCHECK", "CHECK_IO", "CHECK_Z", "ZSTD_STATIC_ASSERT", "DISPLAYLEVEL", "DISPLAY", "EXM_THROW",
+                "BOUNDED", "XXH_CAT", "XXH_NAME2", "A", "B", "ZSTD_QUOTE", "ZSTD_EXPAND_AND_QUOTE", "PREFIX",
+                "ZSTD_memcpy", "ZSTD_memmove", "ZSTD_memset", "MEM_STATIC", "FORCE_INLINE_TEMPLATE", "CHECK",
+                "JOB_ERROR", "ZSTD_PTHREAD_MUTEX_LOCK", "LIKELY", "UNLIKELY", "ZSTD_UNREACHABLE", "isError"}
 CHILD_KEYS = ("b", "i", "fn", "lhs", "rhs", "e", "c", "t", "f", "init")
 
 
@@ -251,6 +257,8 @@ class Function:
         b = self.blocks[bid]
         if b.get("term") in (None, "switch", "goto", "igoto", "break", "continue") or len(b["succ"]) != 2:
             return None
+        if b["succ"][0] is None or b["succ"][1] is None:
+            return None     # constant condition (do{}while(0), if(0)): the dead edge was pruned
         cid = b.get("cond")
         cond = None
         if cid is not None:
@@ -450,7 +458,8 @@ class Function:
             if x.get("err"):
                 out.add("err:" + err_name(x))
             for m in x.get("m", ()):
-                out.add("m:" + m)
+                if m not in NOISE_MACROS:
+                    out.add("m:" + m)
         return out
 
 
